@@ -26,11 +26,19 @@ pub fn run_plan(r: &mut Report, plan: &Plan) {
     for f in &plan.families {
         for i in 0..plan.n_tiny {
             let mut g = rng.fork();
-            items.push((format!("{f:?}/tiny/{i}"), gen::generate(*f, &mut g, 0), 0));
+            let mut p = gen::generate(*f, &mut g, 0);
+            if i % 2 == 1 {
+                p = gen::sprinkle(p, &mut g);
+            }
+            items.push((format!("{f:?}/tiny/{i}"), p, 0));
         }
         for i in 0..plan.n_small {
             let mut g = rng.fork();
-            items.push((format!("{f:?}/small/{i}"), gen::generate(*f, &mut g, 1), 0));
+            let mut p = gen::generate(*f, &mut g, 1);
+            if i % 3 == 1 {
+                p = gen::sprinkle(p, &mut g);
+            }
+            items.push((format!("{f:?}/small/{i}"), p, 0));
         }
         for i in 0..plan.n_sampled {
             let mut g = rng.fork();
